@@ -38,7 +38,7 @@ Proof.
     destruct B; [lia|]. reflexivity.
   - destruct f2 as [|f2].
     + destruct l; [|cbn in H2; lia]. cbn [buckets_fuel]. rewrite firstn_nil. cbn [length]. destruct B; [lia|]. reflexivity.
-    + cbn [buckets_fuel]. cbv zeta. unfold Layout.line, Api.line in *.
+    + cbn [buckets_fuel]. cbv zeta.
       destruct (length (firstn B l) <? B) eqn:E; [reflexivity|]. f_equal.
       apply Nat.ltb_ge in E. rewrite firstn_length in E. apply IH; rewrite skipn_length; lia.
 Qed.
